@@ -1102,6 +1102,7 @@ fn main() {
             reg_enum!(jobs, "u2f_all", enum_u2f, u2f; [0, 1, 7, 16]);
             // (the evidence samples come from the first jobs of each rule: informative widths first)
             reg_gen!(jobs, "u2f", 20000, strat_u2f, u2f; [1088, 128, 65, 0, 1, 7, 24, 25, 53, 54, 63, 64, 127, 129, 192, 256, 512, 1024, 2048]);
+            w_giant!(reg_gen!(jobs, "u2f", 2000, strat_u2f, u2f;));
             reg_gen!(jobs, "f2u_f64", 20000, strat_f64, f2u_f64; [64, 53, 7, 0, 1, 24, 25, 54, 63, 65, 127, 128, 129, 192, 256, 512, 1024, 1088, 2048]);
             reg_gen!(jobs, "f2u_f32", 20000, strat_f32, f2u_f32; [24, 128, 7, 0, 1, 25, 53, 54, 63, 64, 65, 127, 129, 192, 256, 512, 1024, 1088, 2048]);
             reg_grid!(jobs, false; [7, 64, 1, 24, 128]);
